@@ -484,8 +484,52 @@ func (g *Gen) catScenario(kind string) (string, []string) {
 	return "cat " + strings.Join(steps, " "), tags
 }
 
+// catraceCase: directed / exhaustive two-request cases of the concurrent part.
+func (g *Gen) catraceCase() (string, []string) {
+	now := time.Now().UTC().Year()
+	sym := catSyms[g.Intn(len(catSyms))]
+	tf1, tf2 := "1Min", "1H"
+	if g.Intn(2) == 0 {
+		tf1, tf2 = "1D", "1Min"
+	}
+	k1 := sym + "/" + tf1 + "/" + catAttrs[g.Intn(2)]
+	k2 := sym + "/" + tf2 + "/" + catAttrs[g.Intn(2)]
+	setup := fmt.Sprintf("C:%s:%s:0", k1, catDefault)
+	tags := []string{"kind:catrace"}
+	switch g.Intn(4) {
+	case 0: // a sibling bucket keeps the symbol alive: Destroy never reaches root.removeSubDir
+		sib := sym + "/" + tf1 + "/W"
+		if g.Intn(2) == 0 {
+			sib = sym + "/4H/W"
+		}
+		setup += fmt.Sprintf(";C:%s:%s:0", sib, catDefault)
+		tags = append(tags, "sibling")
+	case 1: // another symbol exists
+		setup += fmt.Sprintf(";C:%s:%s:0", "Q/1Min/X", catDefault)
+		tags = append(tags, "other_symbol")
+	}
+	variant := []string{"dc", "dc", "seq01", "seq10", "par"}[g.Intn(5)]
+	t1 := "D:" + k1
+	t2 := fmt.Sprintf("C:%s:%s:0", k2, catDefault)
+	switch variant {
+	case "par": // the pair DESIGN F20 named: new-year write vs. create on the same symbol
+		t1 = fmt.Sprintf("W:%s:0:%d", k1, now-1-g.Intn(3))
+	case "dc":
+		if g.Intn(4) == 0 { // create on ANOTHER symbol: no interference
+			t2 = fmt.Sprintf("C:%s:%s:0", "Z/"+tf2+"/X", catDefault)
+			tags = append(tags, "dc_other_symbol")
+		}
+	}
+	tags = append(tags, "variant:"+variant)
+	return fmt.Sprintf("catrace %d %s %s %s %s -", now, variant, setup, t1, t2), tags
+}
+
 func init() {
 	gens["C17"] = func(g *Gen) {
+		for i, nr := 0, g.N(16, 120); i < nr; i++ {
+			line, tags := g.catraceCase()
+			g.Emit(line, tags...)
+		}
 		n := g.N(120, 2500)
 		for i := 0; i < n; i++ {
 			kind := "wellformed"
@@ -507,4 +551,125 @@ func init() {
 			g.Emit(line, tags...)
 		}
 	}
+}
+
+// ---- directed two-request schedules (C17 concurrent part) -------------------------------------
+//
+// catrace <nowYear> <variant> <setup;setup;...> <t1> <t2> <sched>
+//
+// <t1>, <t2> are steps as in `cat` (D:/C:/W:).  The implementation runs the two requests on two
+// goroutines against the real DataService.  Variants:
+//   seq01 / seq10   one after the other (controls)
+//   par             both started together behind a held root read lock, 8 rounds with different
+//                   start orders; the final state must not depend on the order
+//   dc              t1 = Destroy, t2 = Create of another bucket of the same symbol, directed so that
+//                   Create runs after Destroy's last RemoveAll and before Destroy's final
+//                   root.removeSubDir.  The schedule is forced WITHOUT touching /repo: the harness
+//                   plays two concurrent readers by holding read locks through the exported
+//                   (embedded) sync.RWMutex of two Directory objects:
+//                     1. RLock the leaf Directory  -> Destroy stops in removeDirFiles(leaf).Lock()
+//                     2. RLock the root            -> Create stops in AddTimeBucket's d.Lock()
+//                     3. RUnlock the leaf          -> Destroy removes everything on disk and queues
+//                                                     for the root lock BEHIND Create
+//                     4. RUnlock the root          -> Create runs completely, then Destroy's
+//                                                     root.removeSubDir drops the new subtree.
+//                   Every lock the harness holds is one a real reader takes (ListTimeBucketKeyNames
+//                   holds the root RLock, GetLatestYearFile the leaf RLock), only for longer.
+// The <sched> token is the same schedule at the model's atom granularity (used by the Lean side).
+// Output: T1=<res> T2=<res> L=<tbk> F=<catalog files> K=<disk files> RL=<tbk after restart> /<consistent before the restart>
+
+func (in *Inst) catRunStep(step string) string {
+	f := strings.Split(step, ":")
+	switch f[0] {
+	case "C":
+		return in.catCreate(f[1], f[2], f[3])
+	case "W":
+		return in.catWrite(f[1], f[2], f[3])
+	case "D":
+		return in.catDestroy(f[1])
+	}
+	panic("bad-arg step " + step)
+}
+
+func catraceOp(a []string) string {
+	root := scratchDir("catrace")
+	defer os.RemoveAll(root)
+	in := startInst(root, nil)
+	defer func() { in.abandon() }()
+	if a[0] != strconv.Itoa(time.Now().UTC().Year()) {
+		return "harness:bad-arg now-year " + a[0]
+	}
+	variant, setup, t1, t2 := a[1], a[2], a[3], a[4]
+	if setup != "-" {
+		for _, s := range strings.Split(setup, ";") {
+			in.catRunStep(s)
+		}
+	}
+	var r1, r2 string
+	run := func(step string, res *string, done chan struct{}) {
+		defer close(done)
+		defer func() {
+			if r := recover(); r != nil {
+				*res = panicClass(r)
+			}
+		}()
+		*res = in.catRunStep(step)
+	}
+	cat := in.c.GetCatalogDir()
+	switch variant {
+	case "seq01":
+		r1 = in.catRunStep(t1)
+		r2 = in.catRunStep(t2)
+	case "seq10":
+		r2 = in.catRunStep(t2)
+		r1 = in.catRunStep(t1)
+	case "par":
+		d1, d2 := make(chan struct{}), make(chan struct{})
+		cat.RLock()
+		go run(t1, &r1, d1)
+		go run(t2, &r2, d2)
+		time.Sleep(20 * time.Millisecond)
+		cat.RUnlock()
+		<-d1
+		<-d2
+	case "dc":
+		it := strings.Split(strings.Split(t1, ":")[1], "/")
+		leaf := cat
+		for _, name := range it {
+			if leaf = leaf.GetSubDirWithItemName(name); leaf == nil {
+				return "harness:bad-arg dc: bucket of t1 does not exist"
+			}
+		}
+		d1, d2 := make(chan struct{}), make(chan struct{})
+		leaf.RLock()
+		go run(t1, &r1, d1)
+		time.Sleep(40 * time.Millisecond)
+		cat.RLock()
+		go run(t2, &r2, d2)
+		time.Sleep(40 * time.Millisecond)
+		leaf.RUnlock()
+		time.Sleep(80 * time.Millisecond)
+		cat.RUnlock()
+		<-d1
+		<-d2
+	default:
+		return "harness:bad-arg variant " + variant
+	}
+	keys := catKeys([]string{t1, t2})
+	rootp := in.catRoot()
+	_, bins := diskWalk(rootp)
+	out := []string{"T1=" + r1, "T2=" + r2, "L=" + joinOr(catTbk(cat)), "F=" + joinOr(catFiles(rootp, cat)), "K=" + joinOr(bins)}
+	flag := "/0"
+	if in.catConsistent(keys) {
+		flag = "/1"
+	}
+	in.abandon()
+	in = startInst(root, nil)
+	out = append(out, "RL="+joinOr(catTbk(in.c.GetCatalogDir())), flag)
+	return strings.Join(out, " ")
+}
+
+func init() {
+	ops["catrace"] = catraceOp
+	slowOps["catrace"] = true
 }
